@@ -154,6 +154,10 @@ impl Compiler {
         thread_local! {
             static CACHE: RefCell<HashMap<Node, Option<Vec<Value>>>> = RefCell::new(HashMap::new());
         }
+        #[cfg(feature = "verif_hooks")]
+        if crate::verif::c12::bypassed(crate::verif::c12::PRE_EVAL) {
+            CACHE.with(|cache| cache.borrow_mut().clear());
+        }
         CACHE.with(|cache| {
             if let Some(stack) = cache.borrow_mut().get(node) {
                 return Ok(stack.clone());
